@@ -249,6 +249,12 @@ func (e *env) build(t term, path string) *fun.Iterator[int] {
 		return it
 	case "unjson":
 		b, _ := json.Marshal(data)
+		if depth(path)%2 == 1 {
+			// JSON null decodes to the zero value of a fresh element, exactly like the literal 0: on every other
+			// level the zeros of the array are written as null (an element decoded on top of its predecessor would
+			// keep the predecessor's value)
+			b = []byte(strings.ReplaceAll(strings.ReplaceAll(strings.ReplaceAll(string(b), "[0", "[null"), ",0", ",null"), "[null.", "[0."))
+		}
 		if err := kids[0].UnmarshalJSON(b); err != nil {
 			panic(fmt.Sprintf("UnmarshalJSON(%s): %v", b, err))
 		}
